@@ -343,3 +343,110 @@ def check_seq_ok(ctx, rule="T-SEQTBL"):
                 row_name[(len0, wnd0)], " or ".join(sorted(_bt_str(x) for x in got[1])) or "not acceptable",
                 " or ".join(sorted(_bt_str(x) for x in want[1])) or "not acceptable"))
     ctx.floor(rule, 4)
+
+
+# ---------------------------------------------------------------------------------------------- ACK processing
+def _resolve(t):
+    """Normalise reads through functional updates: field(with(b, f, v), f) -> v ; field(with(b, g, v), f) -> field(b, f);
+    fields of the value returned by remove_acked_from_retransmission (which only prunes the retransmission queue) are
+    the fields of its argument."""
+    def f(x):
+        if x[0] == "field":
+            base = _resolve(x[1])
+            while True:
+                if base[0] == "with":
+                    if base[2] == x[2]:
+                        return _resolve(base[3])
+                    base = base[1]
+                    continue
+                if base[0] == "upd" and base[1].rsplit("::", 1)[-1] in ("remove_acked_from_retransmission", "enqueue") and base[2] == 0 and x[2] != "outgoing":
+                    base = _resolve(base[3][0])
+                    continue
+                break
+            return ("field", base, x[2])
+        return None
+    return S.subst(t, f)
+
+
+def check_ack_processing(ctx, rule="T-ACKEST"):
+    """Tcb::ack_established_processing against RFC 9293 3.10.7.4 (ESTABLISHED): duplicate ACK (SEG.ACK =< SND.UNA)
+    ignored; SEG.ACK > SND.NXT answered with an ACK and dropped; otherwise SND.UNA <- SEG.ACK, acknowledged segments
+    leave the queue, and the send window is updated exactly when SND.WL1 < SEG.SEQ or (SND.WL1 = SEG.SEQ and
+    SND.WL2 =< SEG.ACK). The extracted formula (comparators inlined) is evaluated on every combination of critical
+    positions of SEG.ACK, SND.WL1, SND.WL2 for two bases (one across the 2^32 wrap) and compared with that table."""
+    prog = ctx.prog()
+    b = prog.method("Tcb", "ack_established_processing")
+    inl = [k for k in prog.bodies if k.startswith(PRIMS)]
+    try:
+        ex = S.Extractor(prog, inl, effects=True, max_nodes=60000)
+        t = ex.run(b, S.params_of(b))
+    except S.Unsupported as e:
+        ctx.require(False, "%s: cannot extract ack_established_processing (%s)" % (rule, e))
+    SELF, SEG = S.params_of(b)
+    snd = lambda f: ("field", ("field", SELF, "snd"), f)
+    seg = lambda f: ("field", SEG, f)
+    key = rule + ":ack_established_processing"
+    bad = None
+    n = 0
+
+    def run(x, env):
+        while True:
+            if x[0] == "ite":
+                c = S.concrete(_resolve(x[1]), env, 32)
+                x = x[2] if c else x[3]
+            elif x[0] == "switch":
+                c = S.concrete(_resolve(x[1]), env, 32)
+                c = int(c) if isinstance(c, bool) else c
+                nx = None
+                for v, y in x[2]:
+                    if v == c:
+                        nx = y
+                x = nx if nx is not None else x[3]
+            else:
+                return x
+    for base in (1000, M32 - 3):
+        for win in (0, 10):
+            una, nxt = base % M32, (base + win) % M32
+            for da in (-1, 0, 1, win, win + 1):
+                ack = (una + da) % M32
+                for dw1 in (-1, 0, 1):
+                    for dw2 in (-1, 0, 1):
+                        seqv = 5000
+                        env = {snd("una"): una, snd("nxt"): nxt, snd("wl1"): (seqv + dw1) % M32, snd("wl2"): (ack + dw2) % M32, snd("wnd"): 111,
+                               seg("ack"): ack, seg("seq"): seqv, seg("wnd"): 222}
+                        try:
+                            leaf = run(t, env)
+                        except (KeyError, S.Panics) as e:
+                            ctx.require(False, "%s: the ACK processing cannot be evaluated (%r): no verdict" % (rule, e))
+                        ret = leaf[1] if leaf[0] == "state" else leaf
+                        st = dict(leaf[2]) if leaf[0] == "state" else {}
+                        selft = st.get(SELF, SELF)
+                        vals = {}
+                        for f_ in ("una", "wnd", "wl1", "wl2"):
+                            vals[f_] = S.concrete(_resolve(("field", ("field", selft, "snd"), f_)), env, 32)
+                        sent = "enqueue" in S.term_str(selft)
+                        pruned = "remove_acked_from_retransmission" in S.term_str(selft)
+                        dist = (ack - una) % M32
+                        if dist == 0 or dist > HALF:
+                            want = ("dup", una, 111, env[snd("wl1")], env[snd("wl2")], False)
+                        elif 0 < (ack - nxt) % M32 < HALF:
+                            want = ("invalid", una, 111, env[snd("wl1")], env[snd("wl2")], True)
+                        else:
+                            upd = (0 < (seqv - env[snd("wl1")]) % M32 < HALF) or (env[snd("wl1")] == seqv and ((ack - env[snd("wl2")]) % M32 < HALF))
+                            want = ("valid", ack, 222 if upd else 111, seqv if upd else env[snd("wl1")], ack if upd else env[snd("wl2")], False)
+                        rname = ret[2] if ret[0] == "variant" else (ret[1].rsplit("::", 1)[-1] if ret[0] == "agg" else "?")
+                        kind = "invalid" if rname == "InvalidAck" else "ok"
+                        got = (vals["una"], vals["wnd"], vals["wl1"], vals["wl2"], sent)
+                        n += 1
+                        okk = got == want[1:] and (kind == "invalid") == (want[0] == "invalid") and (want[0] != "valid" or pruned)
+                        if not okk and bad is None:
+                            bad = (una, nxt, ack, env[snd("wl1")], env[snd("wl2")], seqv, want, got, rname, pruned)
+    if bad:
+        una, nxt, ack, wl1, wl2, seqv, want, got, rname, pruned = bad
+        ctx.bad(rule, key, b.span,
+                "ACK processing deviates from RFC 9293 3.10.7.4: with SND.UNA=%d SND.NXT=%d SEG.ACK=%d SND.WL1=%d SND.WL2=%d SEG.SEQ=%d the %s case applies (expected UNA=%d WND=%d WL1=%d WL2=%d, ACK sent: %s) but the code returns %s with UNA=%d WND=%d WL1=%d WL2=%d, ACK sent: %s%s" % (
+                    una, nxt, ack, wl1, wl2, seqv, {"dup": "duplicate-ACK", "invalid": "ACK-of-unsent-data", "valid": "acceptable-ACK"}[want[0]],
+                    want[1], want[2], want[3], want[4], want[5], rname, got[0], got[1], got[2], got[3], got[4],
+                    "" if pruned or want[0] != "valid" else ", retransmission queue not pruned"))
+    else:
+        ctx.ok(rule, key, b.span, "duplicate / unsent / acceptable ACK handling and the window-update condition agree with RFC 9293 3.10.7.4 on all %d evaluated combinations (two bases, one across the 2^32 wrap)" % n)
